@@ -243,6 +243,29 @@ func (fx *Fx) hardwired(st *State, fn *types.Func, call *ast.CallExpr, recv *Val
 					verb := strings.Trim(tv.Value.ExactString(), "\"")
 					at := fx.info.TypeOf(call.Args[1])
 					if (verb == "%v" || verb == "%f" || verb == "%d" || verb == "%s") && at != nil {
+						if _, isIf := types.Unalias(at).Underlying().(*types.Interface); isIf && (verb == "%v" || verb == "%d" || verb == "%f") {
+							// a boxed value (e.g. the variable of a multi-type case clause): a function of the boxed value
+							// which, when the dynamic type is a predeclared integer type, is its decimal text, and for a
+							// predeclared float type the float formatting of the verb
+							a := fx.eval(st, call.Args[1])
+							name := "fmt_iface_" + strings.TrimPrefix(verb, "%")
+							c.declareFun(name, []string{"Iface"}, "Str")
+							r := c.define("fmti", "Str", "("+name+" "+a.T+")")
+							if verb != "%f" {
+								for _, k := range []types.BasicKind{types.Int, types.Int8, types.Int16, types.Int32, types.Int64, types.Uint, types.Uint8, types.Uint16, types.Uint32, types.Uint64} {
+									st.assume(fmt.Sprintf("(=> (= (i_tag %s) %d) (= %s (itoa (i_val %s))))", a.T, c.typeTag(types.Typ[k]), r, a.T))
+								}
+							}
+							if verb != "%d" {
+								rn := "fmt_real_" + strings.TrimPrefix(verb, "%")
+								c.declareFun(rn, []string{"Real"}, "Str")
+								for _, k := range []types.BasicKind{types.Float32, types.Float64} {
+									u := c.unbox(a.T, types.Typ[k])
+									st.assume(fmt.Sprintf("(=> (= (i_tag %s) %d) (= %s (%s %s)))", a.T, c.typeTag(types.Typ[k]), r, rn, u.T))
+								}
+							}
+							return []Val{{T: r, S: "Str", GT: types.Typ[types.String]}}, true
+						}
 						if _, isIf := types.Unalias(at).Underlying().(*types.Interface); !isIf {
 							a := fx.eval(st, call.Args[1])
 							switch {
